@@ -7,14 +7,17 @@
   blocks in `sender.send` behind a shut gate, and tasks draining an unsubscribed stream consume
   what is buffered.  All state changes go through `Jrpc.step`.
 
-  case header:  case <n> client <num|str> <cap> <fcap>
+  case header:  case <n> client <num|str> <cap> <fcap> [<options>]   (options: request timeout / ping, which never
+                fire in these histories and are ignored here)
   ops (every op line starts with the family tag `cl`):
                 cl call [<method hex> [<params hex>]] | cl subscribe | cl batch <n> | cl regnotif <method hex>
                 | cl tbatch <u64|str|bool|pt|optu64> <n>   (batch_request::<R>, see `tdecOf`)
                 | cl notify | cl abandon <op> | cl deliver <text hex> | cl next <op> | cl drop <op>
-                | cl unsub <op> | cl gate open|shut | cl sizes
+                | cl unsub <op> | cl gate open|shut | cl sizes | cl connected | cl deliverx <text hex> (= deliver; the
+                harness expects the text to be rejected)
+                after the read task has given up the connection: front-end operations fail with RestartNeeded(<cause>)
   HTTP client:  case <n> httpc <num|str> ; hc batch <n> <reply hex> | hc call <reply hex>
-                | hc tbatch <ty> <n> <reply hex>
+                | hc tbatch <ty> <n> <reply hex> | hc notify | hc subscribe | hc batchx / tbatchx / callx (= the plain verbs)
   pure verbs:   wsbatch <num|str> <start> <n> <array hex> | httpbatch <num|str> <start> <n> <array hex>
 -/
 import JrpcVerif.Driver.Codec
@@ -30,6 +33,7 @@ structure ClientSt where
   held : List Text := []             -- what it is trying to send
   fcap : Nat := 64                   -- capacity of the front-to-back channel
   halted : Bool := false             -- a fatal error ended the read task
+  cause : String := ""               -- … this one (as `fatal_class` prints it)
   -- the HTTP client (`case <n> httpc <num|str>`): only the id allocator is state
   httpActive : Bool := false
   httpNext : Nat := 0
@@ -190,7 +194,7 @@ def applyStep (cs : ClientSt) (s : Step) : ClientSt × String :=
   let r := step cs.st s
   let a : Acc := { comps := completionsOfT cs.btypes r.effs }
   match r.fatal with
-  | some f => ({ cs with st := r.st, halted := true }, fatalRepr f)
+  | some f => ({ cs with st := r.st, halted := true, cause := ((fatalRepr f).drop 6).toString }, fatalRepr f)
   | none =>
     let (cs', a') := settle { cs with st := r.st } a
     let extra := match r.out with
@@ -218,7 +222,7 @@ def batchResRepr : BRes BatchResult → String
   | .err e => s!"E:{bErrRepr e}"
   | .ok b => s!"batch:{b.successes}:{b.failures}:" ++ String.intercalate "," (b.entries.map payloadRepr)
 
-def clientVerb (cs : ClientSt) (ws : List String) : Option (ClientSt × String) :=
+def clientVerbCore (cs : ClientSt) (ws : List String) : Option (ClientSt × String) :=
   match ws with
   | ["case", _, "client", kind, cap, fcap] =>
     some (match cap.toNat?, fcap.toNat? with
@@ -226,6 +230,7 @@ def clientVerb (cs : ClientSt) (ws : List String) : Option (ClientSt × String) 
         if kind != "num" && kind != "str" then (cs, "bad-op") else
         ({ st := St.init c (kind == "str"), fcap := f, active := true }, "case")
       | _, _ => (cs, "bad-op"))
+  | ["cl", "connected"] => some (if !cs.active then (cs, "bad-op") else (cs, s!"connected {!cs.halted}"))
   | ["case", _, "httpc", kind] =>
     some (if kind != "num" && kind != "str" then (cs, "bad-op")
           else ({ httpActive := true, httpStr := kind == "str" }, "case"))
@@ -253,6 +258,9 @@ def clientVerb (cs : ClientSt) (ws : List String) : Option (ClientSt × String) 
            if (es.filterMap decodeResponse).length != es.length then ({ cs with httpNext := cs.httpNext + 1 }, "E:parse")
            else ({ cs with httpNext := cs.httpNext + 1 }, tresRepr false (httpBatchT δ cs.httpNext k (es.filterMap decodeResponse))))
       | _, _, _ => (cs, "bad-op"))
+  -- client.rs:413-428: a notification takes no id; subscriptions are not implemented over HTTP
+  | ["hc", "notify"] => some (if !cs.httpActive then (cs, "bad-op") else (cs, "-"))
+  | ["hc", "subscribe"] => some (if !cs.httpActive then (cs, "bad-op") else (cs, "E:http-not-implemented"))
   | ["hc", "call", h] =>
     some (if !cs.httpActive then (cs, "bad-op") else
       match unhexText h with
@@ -277,7 +285,13 @@ def clientVerb (cs : ClientSt) (ws : List String) : Option (ClientSt × String) 
       | none => "bad-op")
   | "cl" :: verb :: args =>
     if !cs.active then some (cs, "bad-op")
-    else if cs.halted then some (cs, "dead")
+    else if cs.halted then
+      -- `to_back` is closed: every front-end operation fails at once with the recorded cause
+      some (match verb with
+        | "call" | "batch" | "tbatch" | "subscribe" | "regnotif" =>
+          ({ cs with st := { cs.st with nextOp := cs.st.nextOp + 1 } }, s!"t{cs.st.nextOp}=E:restart({cs.cause})")
+        | "notify" => (cs, "-")
+        | _ => (cs, "dead"))
     else
     some (match verb, args with
       | "call", [] => applyStep cs (.newCall tM none)
@@ -336,5 +350,18 @@ def clientVerb (cs : ClientSt) (ws : List String) : Option (ClientSt × String) 
         (cs, s!"sizes {r} {s} {b} {h}")
       | _, _ => (cs, "bad-op"))
   | _ => none
+
+/-- alias spellings of op lines: the options word of the header is ignored; the `x` verbs are the plain verbs (the
+harness additionally expects the text to be rejected) -/
+def clientAlias : List String → List String
+  | ["case", n, "client", kind, cap, fcap, _] => ["case", n, "client", kind, cap, fcap]
+  | ["case", n, "httpc", kind, _] => ["case", n, "httpc", kind]
+  | ["hc", "batchx", n, h] => ["hc", "batch", n, h]
+  | ["hc", "tbatchx", ty, n, h] => ["hc", "tbatch", ty, n, h]
+  | ["hc", "callx", h] => ["hc", "call", h]
+  | ["cl", "deliverx", h] => ["cl", "deliver", h]
+  | ws => ws
+
+def clientVerb (cs : ClientSt) (ws : List String) : Option (ClientSt × String) := clientVerbCore cs (clientAlias ws)
 
 end Jrpc.Driver
